@@ -70,7 +70,9 @@ def define():
     for e in all_entries_named(("c01_ins_yremove_ins__none_heap_stack_B3D", "c01_ins_yswapremove_push__none_stack_heap_B3D", "c01_ins_ydrain_ins__none_heap_heap_B3D",
                                 "c01_rem_remove_inserty__none_heap_stack_B3D", "c01_rem_swapremove_pushy__none_heap_heap_B3D", "c01_rem_remove_drop__none_heap_heap_B3D",
                                 "c01_rem_remove_downcast__none_stack_heap_B3D", "c01_clear_erased__none_heap_B3D", "c01_clear_erased__none_heap_Z0D", "c01_rem_remove_drop__none_heap_heap_Z0D",
-                                "c01_rem_swapremove_drop__none_heap_heap_Z0D", "c02_drain_erased__none_stack_B3D__cf3_ls3_ss3_es3_fs2_bs2", "c02_drain_typed__none_heap_B3D", "c02_drain_erased__none_heap_Z0D")):
+                                "c01_rem_swapremove_drop__none_heap_heap_Z0D", "c02_drain_erased__none_stack_B3D__cf3_ls3_ss3_es3_fs2_bs2", "c02_drain_typed__none_heap_B3D", "c02_drain_erased__none_heap_Z0D",
+                                # splice dropped after an arbitrary part of the replaced range was taken (front/back): every replaced element destroyed once
+                                "c02_splice_erased_raw__none_stack_B3D__cf3_ls3_ss3_es3_fs1_bs1_rf0", "c02_splice_typed_wrapper__none_stack_B3D__cf4_ls3_ss3_es3_fs1_bs1_rf1")):
         if "C03" not in e["props"]:
             e["props"].append("C03")
     # three vectors, 2-3 concrete steps, symbolic payloads (seeded rotation in quick, all in thorough)
